@@ -32,6 +32,8 @@ def real_parse(text, splitter, comments):
         return {"err": False, "tree": tree_json(t)}
     except tabparser.ParserError:
         return {"err": True, "tree": []}
+    except Exception as e:       # refusing a text means ParserError (callers catch that one): anything else is an outcome of its own
+        return {"err": True, "tree": [], "exc": repr(e)}
 
 
 def render(lines):
@@ -75,6 +77,8 @@ def run(ctx):
         out = real_parse(text, splitter, comments)
         rid = "%s-%d" % (tag, len(recs))
         rec = {"id": rid, "comments": list(comments), "lines": lx, "err": out["err"], "tree": out["tree"], "text": text}
+        if "exc" in out:
+            rec["exc"] = out["exc"]
         recs.append(rec)
         ctx.count()
         key = json.dumps([comments, lx])
@@ -137,12 +141,14 @@ def run(ctx):
         sp = rnd.choice([common.split, common.split, huawei.split])
         add(None, comments, sp, "rnd", text=text)
     ctx.sample({"kind": "random", "text": recs[-1]["text"], "err": recs[-1]["err"]})
-    slim = [{k: v for k, v in r.items() if k != "text"} for r in recs]
+    slim = [{k: v for k, v in r.items() if k not in ("text", "exc")} for r in recs]
     verd = ctx.judge("trace/Trace_Offside.tla", "trace/Trace.cfg", slim)
     for r in recs:
         v = verd[r["id"]][0]
         if v != "ok":
             ctx.reject(r["id"], v, r, None)
+        elif "exc" in r:
+            ctx.reject(r["id"], "refused-with-another-exception-than-the-parse-error [%s]" % r["exc"][:60], r, None)
 
 
 def replay(ctx, path):
@@ -151,6 +157,8 @@ def replay(ctx, path):
     sp = tabparser.CommonFormatter().split
     out = real_parse(rec["text"], sp, tuple(rec["comments"]))
     rec2 = {"id": "replay", "comments": rec["comments"], "lines": lex(rec["text"].split("\n")), "err": out["err"], "tree": out["tree"]}
+    if "exc" in out:
+        ctx.reject("replay", "refused-with-another-exception-than-the-parse-error [%s]" % out["exc"][:60], dict(rec2, text=rec["text"]), None)
     v = ctx.judge("trace/Trace_Offside.tla", "trace/Trace.cfg", [rec2])
     ctx.count()
     if v["replay"][0] != "ok":
